@@ -671,11 +671,11 @@ class Executor:
 
     def dict_dom(self, st, d):
         dk, ds, vk, vs = self.dkeys(d.ty)
-        return z3.Select(self.heap_get(st, dk, ds), d.z)
+        return self.select(self.heap_get(st, dk, ds), d.z)
 
     def dict_val(self, st, d):
         dk, ds, vk, vs = self.dkeys(d.ty)
-        return z3.Select(self.heap_get(st, vk, vs), d.z)
+        return self.select(self.heap_get(st, vk, vs), d.z)
 
     def skey(self, ety):
         s = T.sort_of(ety)
@@ -683,7 +683,7 @@ class Executor:
 
     def set_content(self, st, s):
         k, srt = self.skey(s.ty.args[0])
-        return z3.Select(self.heap_get(st, k, srt), s.z)
+        return self.select(self.heap_get(st, k, srt), s.z)
 
     def alloc(self, st, ty, hint='obj'):
         """Fresh reference, distinct from every reference allocated so far."""
@@ -1208,6 +1208,9 @@ class Executor:
         return v
 
     def contains(self, st, coll, x):
+        d_ = self.as_dict_subclass(st, coll)
+        if d_ is not None:
+            coll = d_
         t = coll.ty
         if t.kind == 'opt' and T.is_reflike(t.args[0]):
             coll = SV(t.args[0], coll.z)
@@ -1350,7 +1353,17 @@ class Executor:
             return self.index(st, base, idx, cx, e, k)
         return self.ev_list(st, [e.value, e.slice], cx, f)
 
+    def as_dict_subclass(self, st, v):
+        """an instance of a class derived from dict is used as the dict it is: the hidden field `__dict`"""
+        if v.ty.kind == 'ref' and any('dict' in self.repo.classes[c].base_names for c in self.repo.mro(v.ty.args[0])
+                                      if c in self.repo.classes):
+            return self.read_field(st, v, '__dict')
+        return None
+
     def index(self, st, base, idx, cx, node, k):
+        d_ = self.as_dict_subclass(st, base)
+        if d_ is not None:
+            base = d_
         t = base.ty
         if t.kind == 'opt' and T.is_reflike(t.args[0]):
             inner = SV(t.args[0], base.z)
@@ -1490,6 +1503,47 @@ class Executor:
 
     def ev_Lambda(self, st, e, cx, k):
         raise VCError('lambda outside subset here')
+
+    def ev_DictComp(self, st, e, cx, k):
+        """{key(x): value(x) for x in S}  (one generator, no filter, S a set or math set): the result's domain is exactly
+        the image of S under key -- stated without an existential through a choice function `pre`."""
+        if len(e.generators) != 1 or e.generators[0].ifs or not isinstance(e.generators[0].target, ast.Name):
+            raise VCError(f'dict comprehension form outside subset: {ast.unparse(e)}')
+        g = e.generators[0]
+
+        def f(st, S):
+            if S.ty.kind == 'set':
+                members = self.set_content(st, S)
+                ety = S.ty.args[0]
+            elif S.ty.kind == 'mset':
+                members = S.z
+                ety = S.ty.args[0]
+            else:
+                raise VCError(f'dict comprehension over {S.ty!r} outside subset')
+            self.counter += 1
+            x = SV(ety, z3.Const(f'{g.target.id}!dc{self.counter}', T.sort_of(ety)))
+            st_x = st.setvar(g.target.id, x)
+            kx = self.pure(st_x, e.key, cx)
+            vx = self.pure(st_x, e.value, cx)
+            dty = T.dct(kx.ty, vx.ty)
+            ks, vs_ = T.sort_of(kx.ty), T.sort_of(vx.ty)
+            dom = self.fresh_z(z3.ArraySort(ks, z3.BoolSort()), 'dcdom')
+            val = self.fresh_z(z3.ArraySort(ks, vs_), 'dcval')
+            pre = z3.Function(f'dcpre!{self.counter}', ks, T.sort_of(ety))
+            y = z3.Const(f'y!dc{self.counter}', ks)
+            s2 = st.assume(
+                z3.ForAll([x.z], z3.Implies(z3.Select(members, x.z), z3.Select(dom, kx.z)), patterns=[z3.Select(members, x.z)]),
+                z3.ForAll([y], z3.Implies(z3.Select(dom, y),
+                                          z3.And(z3.Select(members, pre(y)),
+                                                 z3.substitute(kx.z, (x.z, pre(y))) == y,
+                                                 z3.Select(val, y) == z3.substitute(vx.z, (x.z, pre(y))))),
+                          patterns=[z3.Select(dom, y)]))
+            s2, r = self.alloc(s2, dty, 'dictcomp')
+            dk, ds, vk, vsrt = self.dkeys(dty)
+            s2 = s2.setheap(dk, z3.Store(self.heap_get(s2, dk, ds), r.z, dom))
+            s2 = s2.setheap(vk, z3.Store(self.heap_get(s2, vk, vsrt), r.z, val))
+            return k(s2, r)
+        return self.ev(st, g.iter, cx, f)
 
     def ev_ListComp(self, st, e, cx, k):
         return self.bi.listcomp(st, e, cx, k)
